@@ -402,6 +402,9 @@ func Run[C any](t *testing.T, s Spec[C]) {
 		}
 		ctx := &Ctx{r: r}
 		var err2 error
+		// Markers for the driver: a former failing input that kills the process
+		// (Go fatal errors cannot be recovered) leaves a BEGIN without an END.
+		fmt.Printf("REPLAY-BEGIN %s\n", path)
 		func() {
 			defer func() {
 				if p := recover(); p != nil {
@@ -410,6 +413,7 @@ func Run[C any](t *testing.T, s Spec[C]) {
 			}()
 			err2 = s.Exec(ctx, c)
 		}()
+		fmt.Printf("REPLAY-END %s\n", path)
 		for _, k := range ctx.known {
 			fmt.Printf("KNOWN-FINDING: property=%s %s\n", r.ID, r.findings[k].What)
 		}
